@@ -76,9 +76,52 @@ def spatial_terms(rng, mc, phi, kinds=("diffusion",), posD=True, store=None):
 
 # ------------------------------------------------------------------ C04
 
+def c04_signed_pairs(S, rng, n):
+    """(matrix, vector) pairs wrapped in utilities.SignedTuple so that they can be negated: negation returns the negated
+    pair and leaves the original alone, so a pair built once can be written as `-Q` in the term list of every step"""
+    from pyfvtool.boundary import boundaryConditionsTerm
+    from pyfvtool.utilities import SignedTuple
+    from scipy.sparse.linalg import spsolve
+    for t in range(n):
+        kind = ["cart1", "cyl1", "cart2", "cyl2", "sph1"][t % 5]
+        mc = rand_mesh(rng, kind, nmax=3)
+        try:
+            spec = wellposed_bcs(rng, mc)
+            bc = make_bcs(mc, spec)
+            phi = pf.CellVariable(mc.m, rand_vals(rng, mc.shape()), bc)
+            beta = np.abs(rand_vals(rng, mc.shape(), "pos")) + 0.5
+            gamma = rand_vals(rng, mc.shape())
+            Q = SignedTuple((pf.linearSourceTerm(pf.CellVariable(mc.m, beta)), pf.constantSourceTerm(pf.CellVariable(mc.m, gamma))))
+            M0 = csr_array(Q[0]).copy(); R0 = np.array(Q[1], copy=True)
+            D = make_facevar(mc, [np.abs(a) + 0.25 for a in rand_face_arrays(rng, mc, "pos")])
+            inp = case_of(mc, bc=bc_describe(spec), beta=beta, gamma=gamma)
+            for step in range(3):
+                old = np.array(phi._value, copy=True)
+                Mt, Rt = pf.transientTerm(phi, 0.5, 1.0)
+                Md = pf.diffusionTerm(D)
+                nQ = -Q
+                neg_ok = abs(csr_array(nQ[0]) + M0).max() == 0 and np.array_equal(np.asarray(nQ[1]), -R0)
+                kept = abs(csr_array(Q[0]) - M0).max() == 0 and np.array_equal(np.asarray(Q[1]), R0)
+                S.check(bool(neg_ok and kept), f"C04:signed-pair-negation:{kind}", "negating a SignedTuple pair does not return the negated pair, or changes the original pair",
+                        {**inp, "step": step}, None, None)
+                pf.solvePDE(phi, [(Mt, Rt), -Md, -Q])
+                Mb, Rb = boundaryConditionsTerm(phi.BCs)
+                ref = spsolve(csr_array(Mb) + csr_array(Mt) - csr_array(Md) - M0, np.asarray(Rb) + np.asarray(Rt) - R0)
+                got = np.asarray(phi._value).ravel()
+                inner = np.zeros(mc.gshape(), dtype=bool); inner[tuple(slice(1, -1) for _ in mc.dims)] = True
+                sc = max(1.0, float(np.max(np.abs(ref))))
+                S.check(bool(np.all(np.abs(got - ref)[inner.ravel()] <= 1e-9 * sc)), f"C04:signed-pair-solve:{kind}",
+                        "solvePDE with a negated SignedTuple pair (built once, negated at every step) differs from the system assembled from independent copies",
+                        {**inp, "step": step}, got[inner.ravel()].tolist()[:8], ref[inner.ravel()].tolist()[:8])
+            S.sig(kind, "signed-pair")
+        except Exception as ex:
+            S.check(False, f"C04:signed-pair:{kind}:exception", repr(ex), {"kind": kind}, repr(ex), "no exception")
+
+
 def search_c04(rng, n, S=None, kinds=None):
     from pyfvtool.boundary import boundaryConditionsTerm
     S = S or Search("C04")
+    c04_signed_pairs(S, rng, max(5, n // 8))
     for t in range(n):
         kind = (kinds or KINDS)[t % len(kinds or KINDS)]
         mc = rand_mesh(rng, kind, nmax=3)
